@@ -5,13 +5,15 @@
 
   Mirrors (see design/notes/C03.md for the function-by-function table):
     jaq-core/src/filter.rs  `Id::run` (which adapter every construct builds), `label_run`,
-                            `try_catch_run`, `pipe`, `Ctx::cons_label/cons_var`
+                            `try_catch_run`, `pipe`, `cartesian`, `bind_vars`, `closure`,
+                            `Ctx::cons_label/cons_var/cons_fun/skip_vars/with_vars`
     jaq-core/src/funs.rs    `first! limit! skip! while_gtz! range`
     jaq-core/src/exn.rs     `Exn::{Err,Break,Halt}`
     jaq-std/src/input.rs    `input`, `inputs` over the shared `RcIter`
   No Mathlib: linked into the `jaqmodel` executable.
 -/
 import JaqVerif.Val.Basic
+import JaqVerif.Val.Arith
 
 namespace Jaq.C03
 open Jaq
@@ -25,31 +27,31 @@ inductive Item where
   | halt (c : Int)
   deriving Repr, Inhabited
 
-/-- a binding of the context (`Bind::Var`, `Bind::Label`); closures do not occur in the fragment -/
-inductive Bind where
-  | var (v : Val)
-  | label (l : Nat)
-  deriving Repr, Inhabited
+/-- `Ast::Math` operators of the fragment -/
+inductive MathOp where
+  | add | sub | mul
+  deriving Repr, Inhabited, DecidableEq
 
-/-- `Ctx`: bindings (most recent first, de Bruijn) and the counter of bound labels -/
-structure Ctx where
-  env : List Bind
-  labels : Nat
-  deriving Repr, Inhabited
+/-- `CallType` of a `CallDef` that runs the body now: `Inline` (the body's iterator as it is)
+or `CatchOne`/`CatchAll` (the body's iterator inside the trampoline `Stack`) -/
+inductive CallTy where
+  | inline | catch_
+  deriving Repr, Inhabited, DecidableEq
 
-/-- `Ctx::cons_label` -/
-def Ctx.consLabel (c : Ctx) : Ctx := ⟨.label (c.labels + 1) :: c.env, c.labels + 1⟩
-/-- `Ctx::cons_var` -/
-def Ctx.consVar (c : Ctx) (v : Val) : Ctx := ⟨.var v :: c.env, c.labels⟩
-/-- context of the body of a top-level definition without arguments: `skip_vars(skip)` drops
-all bindings, the label counter is kept (`with_vars`) -/
-def Ctx.forDef (c : Ctx) : Ctx := ⟨[], c.labels⟩
+/-- `Fold::Reduce`, `Fold::Foreach(None)`, `Fold::Foreach(Some(proj))` -/
+inductive FoldKind where
+  | reduce | foreach | foreachP
+  deriving Repr, Inhabited, DecidableEq
 
-/-- the program fragment.  `var i` is `Ast::Var` (a variable `$x` or `break $l`, depending on
-what is bound at index `i`); `call i` calls the `i`-th top-level definition `def dI: …;`
-(no arguments; recursion allowed; `tcall i` is the same call in tail position of `dI`'s own
-body, compiled to `CallType::Throw`); `ret`, `toBool`, `idxOf` are internal forms that only
-continuations build. -/
+/-- the program fragment.  `var i` is `Ast::Var` at a variable `$x` or a label (`break $l`),
+`fvar i` is `Ast::Var` at a filter argument (the closure bound at index `i` is run);
+`call i` calls the `i`-th definition without arguments from a context whose bindings are all
+skipped (`tcall i`: the same call in tail position, `CallType::Throw`);
+`callA ty i skip args` / `tcallA i skip args` are the general `CallDef(id, args, skip, ty)`: an
+argument `(true, a)` is a filter argument (bound to the closure of `a` in the caller's context),
+`(false, a)` a `$`-argument given by a simple term (`.`, literal, variable);
+`fold kind xs init upd proj` is `reduce/foreach xs as $x (init; upd[; proj])`;
+`ret`, `toBool`, `idxOf`, `mathR` are internal forms that only continuations build. -/
 inductive T where
   | id
   | lit (c : Val)
@@ -77,7 +79,36 @@ inductive T where
   | toBool (f : T)
   | ret (x : Item)
   | idxOf (y : Val)               -- input `j` ↦ `y[j]`
+  -- round 2
+  | arr (f : T)                   -- `[f]`
+  | math (op : MathOp) (l r : T)  -- `l op r`
+  | mathR (op : MathOp) (y : Val) (r : T)  -- `r | (y op .)`: the inner `map_with` of `cartesian`
+  | fold (kind : FoldKind) (xs init upd proj : T)
+  | fvar (i : Nat)
+  | callA (ty : CallTy) (i skip : Nat) (args : List (Bool × T))
+  | tcallA (i skip : Nat) (args : List (Bool × T))
   deriving Repr, Inhabited
+
+/-- a binding of the context (`Bind::Var`, `Bind::Label`, `Bind::Fun((id, vars))`) -/
+inductive Bind where
+  | var (v : Val)
+  | label (l : Nat)
+  | fn (t : T) (env : List Bind)
+  deriving Repr, Inhabited
+
+/-- `Ctx`: bindings (most recent first, de Bruijn) and the counter of bound labels -/
+structure Ctx where
+  env : List Bind
+  labels : Nat
+  deriving Repr, Inhabited
+
+/-- `Ctx::cons_label` -/
+def Ctx.consLabel (c : Ctx) : Ctx := ⟨.label (c.labels + 1) :: c.env, c.labels + 1⟩
+/-- `Ctx::cons_var` -/
+def Ctx.consVar (c : Ctx) (v : Val) : Ctx := ⟨.var v :: c.env, c.labels⟩
+/-- context of the body of a top-level definition without arguments: `skip_vars(skip)` drops
+all bindings, the label counter is kept (`with_vars`) -/
+def Ctx.forDef (c : Ctx) : Ctx := ⟨[], c.labels⟩
 
 /-- `ValT::as_bool` -/
 def asBool : Val → Bool
@@ -110,12 +141,78 @@ def indexItem (y : Val) : Item → Item
   | .ok j => indexVal y j
   | x => x
 
-/-- what `Ast::Var` yields -/
+/-- `op.run(l, r)` (`impl Add/Sub/Mul for Val`); errors by class, not by message text -/
+def mathVal (op : MathOp) (l r : Val) : Item :=
+  match (match op with
+    | .add => Val.add l r
+    | .sub => Val.sub l r
+    | .mul => Val.mul l r) with
+  | .ok v => .ok v
+  | .error _ => .err (.tstr "cannot calculate".toUTF8.toList)
+
+/-- `(l, r) ↦ op.run(l?, r?)` for a fixed left operand: exceptions of the right operand pass -/
+def mathItem (op : MathOp) (l : Val) : Item → Item
+  | .ok r => mathVal op l r
+  | x => x
+
+/-- what `Ast::Var` yields at a variable or a label (a filter argument is not a value) -/
 def lookup (c : Ctx) (i : Nat) : Option Item :=
   match c.env[i]? with
   | some (.var v) => some (.ok v)
   | some (.label l) => some (.brk l)
+  | _ => none
+
+/-- the closure bound at index `i` (`Bind::Fun`) -/
+def lookupFn (c : Ctx) (i : Nat) : Option (T × List Bind) :=
+  match c.env[i]? with
+  | some (.fn t env) => some (t, env)
+  | _ => none
+
+/-- index filters / `$`-arguments whose evaluation is one pure step: `.`, a literal, a variable -/
+def T.simple : T → Bool
+  | .id => true
+  | .lit _ => true
+  | .var _ => true
+  | _ => false
+
+/-- the value of a simple filter -/
+def simpleVal (i : T) (c : Ctx) (v : Val) : Option Item :=
+  match i with
+  | .id => some (.ok v)
+  | .lit x => some (.ok x)
+  | .var n => lookup c n
+  | _ => none
+
+/-- `closure(arg, ctx)`: an argument that merely passes on a filter argument of the caller
+reuses the closure bound to it -/
+def mkClosure (arg : T) (caller : List Bind) : Bind :=
+  match arg with
+  | .fvar j =>
+    match caller[j]? with
+    | some (.fn t e) => .fn t e
+    | _ => .fn arg caller
+  | _ => .fn arg caller
+
+/-- `bind_vars(args, ctx, cv)` for filter arguments and simple `$`-arguments (every step is
+`box_once`): the arguments are pushed, first to last, onto the callee's bindings.  `none`: a
+`$`-argument that is not a value (outside what the compiler produces for the lowered programs). -/
+def bindArgs (caller : Ctx) (v : Val) : List (Bool × T) → List Bind → Option (List Bind)
+  | [], env => some env
+  | (true, a) :: rest, env => bindArgs caller v rest (mkClosure a caller.env :: env)
+  | (false, a) :: rest, env =>
+    match simpleVal a caller v with
+    | some (.ok x) => bindArgs caller v rest (.var x :: env)
+    | _ => none
+
+/-- the context of the body of `CallDef(id, args, skip, _)`: `cv.0.skip_vars(skip)` extended by
+the arguments; the label counter is the caller's -/
+def callCtx (c : Ctx) (skip : Nat) (args : List (Bool × T)) (v : Val) : Option Ctx :=
+  match bindArgs c v args (c.env.drop skip) with
+  | some env => some ⟨env, c.labels⟩
   | none => none
+
+/-- the pair `(ctx with $x, y)` that `fold` hands to the projection of `foreach`, as one value -/
+def pairVal (x y : Val) : Val := .arr [x, y]
 
 /-- the continuations handed to `flat_map_then_with`.  `idxL`/`idxR` are the two results of
 `collect_if_once` on an index filter: `Either::L(once(x))` or `Either::R(Delay(f))`. -/
@@ -126,6 +223,8 @@ inductive K where
   | logic (stop : Bool) (r : T) (ctx : Ctx) (v : Val)
   | idxL (x : Item)                                -- `f[i]`, index already collected
   | idxR (i : T) (ctx : Ctx) (v : Val)             -- `f[i]`, index filter delayed
+  | math (op : MathOp) (r : T) (ctx : Ctx) (v : Val) -- `l op r`: for an output of `l`, all of `r`
+  | proj (p : T) (ctx : Ctx)                       -- `foreach … (…; …; p)`: `(ctx with $x, y) ↦ y | p`
   deriving Repr, Inhabited
 
 /-- the closure passed to `flat_map_then_with`: which filter runs, in which context, on which
@@ -137,10 +236,16 @@ def K.app : K → Val → T × Ctx × Val
   | .logic stop r ctx v, y => if asBool y == stop then (.lit (.bool stop), ctx, v) else (.toBool r, ctx, v)
   | .idxL x, y => (.ret (indexItem y x), ⟨[], 0⟩, y)
   | .idxR i ctx v, y => (.pipe i (.idxOf y), ctx, v)
+  | .math op r ctx v, y => (.mathR op y r, ctx, v)
+  | .proj p ctx, y =>
+    match y with
+    | .arr [x, y'] => (p, ctx.consVar x, y')
+    | _ => (.empty, ctx, y)
 
 /-- unary stream adapters with a small state: `limit!`/`skip!` (`while_gtz!` counters),
 `label_run` (`map_while`), `try_catch_run`, the `filter` of `//`, the `map` of `and`/`or`,
-and the transparent trampoline `Stack` around calls of definitions. -/
+the transparent trampoline `Stack` around calls of definitions, the loop of `collect()` in
+`[f]`, the `map` of `cartesian`. -/
 inductive Wr where
   | limit (n : Nat)
   | skip (n : Nat)
@@ -149,6 +254,8 @@ inductive Wr where
   | filt
   | toBool
   | stack
+  | collect (acc : List Val)      -- `collect::<Result<V, _>>()`: gathered so far, most recent first
+  | mathL (op : MathOp) (l : Val) -- `map_with(r.run(cv), l, …)` followed by `op.run`
   deriving Repr, Inhabited
 
 /-- what an adapter does with the item it pulled -/
@@ -179,6 +286,15 @@ def Wr.step : Wr → Item → Act
   | .toBool, .ok v => .emit (.ok (.bool (asBool v))) .toBool
   | .toBool, x => .emit x .toBool
   | .stack, x => .emit x .stack
+  | .collect acc, .ok y => .drop (.collect (y :: acc))
+  | .collect _, x => .emit x (.limit 0)           -- the first exception ends `collect`
+  | .mathL op l, x => .emit (mathItem op l x) (.mathL op l)
+
+/-- what the adapter delivers when its inner iterator is exhausted (`collect()`: the array;
+afterwards nothing) -/
+def Wr.atEnd : Wr → Option Item
+  | .collect acc => some (.ok (.arr acc.reverse))
+  | _ => none
 
 /-- adapters whose `size_hint` upper bound is that of the inner iterator (`MapWhile`, `Filter`,
 `Map`); the others are `from_fn` / `Stack` with the default `(0, None)` -/
@@ -186,6 +302,7 @@ def Wr.transparent : Wr → Bool
   | .label _ => true
   | .filt => true
   | .toBool => true
+  | .mathL _ _ => true
   | _ => false
 
 /-- an effect: the value read from the shared input stream -/
@@ -210,15 +327,43 @@ def rangeGo (cur to by_ : Int) : Bool :=
 
 def intVal (i : Int) : Val := .num (Num.ofInt i)
 
-/-- index filters whose evaluation is one pure step: `.`, a literal, a variable -/
-def T.simple : T → Bool
+/-! ### the class of programs the main theorem speaks about -/
+
+/-- filters whose iterator is built without touching the world and is `once`/`nil`/`inputs`/`range` -/
+def T.lazySrc0 : T → Bool
   | .id => true
   | .lit _ => true
-  | .var _ => true
+  | .empty => true
+  | .error => true
+  | .halt _ => true
+  | .inputs => true
+  | .range _ _ _ => true
   | _ => false
 
-/-- every path index filter of the program is simple (hypothesis `PureIndexFilters` of the main
-theorem; see finding F-03 for what happens without it) -/
+/-- filters whose iterator has no upper bound when built (`inputs`, `range`) -/
+def T.noUpper : T → Bool
+  | .inputs => true
+  | .range _ _ _ => true
+  | _ => false
+
+def T.lazySrc1 : T → Bool
+  | .comma l _ => l.lazySrc0
+  | .pipe l _ => l.noUpper
+  | t => t.lazySrc0
+
+/-- sources `xs` of `reduce`/`foreach` whose *construction* touches nothing (their outputs may
+do anything): `inputs`, `range(…)`, `.`, literals, `empty`, `error`, `(x, anything)`,
+`(inputs | anything)`, `limit(n; such)`, `try such catch anything`.  The manual does not say
+whether starting `xs` or `init` comes first; for these sources the question does not arise. -/
+def T.lazySrc : T → Bool
+  | .limit _ f => f.lazySrc1
+  | .tryCatch f _ => f.lazySrc1
+  | t => t.lazySrc1
+
+mutual
+/-- every path index filter of the program is simple, every `$`-argument is simple, every
+source of a `reduce`/`foreach` is in `lazySrc` (hypothesis `PureIndexFilters` of the main
+theorem; see finding F-03 for what happens without the first condition) -/
 def T.pureIdx : T → Bool
   | .comma l r => l.pureIdx && r.pureIdx
   | .pipe l r => l.pureIdx && r.pureIdx
@@ -233,6 +378,29 @@ def T.pureIdx : T → Bool
   | .label f => f.pureIdx
   | .toBool f => f.pureIdx
   | .index f i => f.pureIdx && i.simple
+  | .arr f => f.pureIdx
+  | .math _ l r => l.pureIdx && r.pureIdx
+  | .mathR _ _ r => r.pureIdx
+  | .fold _ xs i u p => xs.lazySrc && xs.pureIdx && i.pureIdx && u.pureIdx && p.pureIdx
+  | .callA _ _ _ args => T.pureArgs args
+  | .tcallA _ _ args => T.pureArgs args
   | _ => true
+def T.pureArgs : List (Bool × T) → Bool
+  | [] => true
+  | (true, a) :: rest => a.pureIdx && T.pureArgs rest
+  | (false, a) :: rest => a.simple && T.pureArgs rest
+end
+
+mutual
+/-- the closures of a context have pure index filters (…) -/
+def Bind.pure : Bind → Bool
+  | .fn t env => t.pureIdx && Bind.pureL env
+  | _ => true
+def Bind.pureL : List Bind → Bool
+  | [] => true
+  | b :: bs => b.pure && Bind.pureL bs
+end
+
+def Ctx.pure (c : Ctx) : Bool := Bind.pureL c.env
 
 end Jaq.C03
